@@ -152,15 +152,15 @@ def run(ctx):
     quick = ctx.tier == "quick"
     # 1. the model: laws on every cell of the decision table (and the cells as scripts), laws on every
     #    reachable state of the configuration/session machine x small request space, random histories
-    nsim = 4 if quick else 16
-    per_sim = 90 if quick else 400
+    nsim = 4 if quick else 24
+    per_sim = 90 if quick else 500
     jobs = [("table",), ("machine",)] + [("sim", k) for k in range(nsim)] + [("storm",)]
 
     def work(j):
         if j[0] == "table":
             return table(ctx, not quick)
         if j[0] == "machine":
-            return machine(ctx, 2 if quick else 3)
+            return machine(ctx, 2 if quick else 5)
         if j[0] == "storm":   # a few histories with concurrent configuration changes
             return simulate(ctx, 99, 8 if quick else 32, True, storms=True)
         return simulate(ctx, j[1], per_sim, j[1] % 4 != 3)
@@ -176,7 +176,25 @@ def run(ctx):
     ok, unex = judge(ctx, scripts, hists, owner)
     reqs = [e for h in hists for e in h if e.get("e") == "req"]
     pans = [e for h in hists for e in h if e.get("e") == "apipanic"]
-    distinct = len({json.dumps(e["q"], sort_keys=True) + e["phase"] for e in reqs})
+    # distinct cases: (abstract request, expiry phase, dev mode, authenticator behaviour) of requests that carry a
+    # credential or an Origin, use the bridge, or address a routed handler (bookkeeping only, no judgement)
+    seen = set()
+    for h in hists:
+        dev, auth, authset = False, ("nil", 1, 1), True
+        for e in h:
+            k = e.get("e")
+            if k == "new":
+                dev, auth, authset = False, ("nil", 1, 1), e.get("authset")
+            elif k in ("dev", "storm"):
+                dev = e.get("on")
+            elif k == "auth":
+                auth = (e.get("mode"), e.get("r"), e.get("w"))
+            elif k == "req":
+                q = e["q"]
+                if q["azk"] != "none" or q["ckk"] != "none" or q["origin"] != "none" or q["via"] == "bridge" \
+                        or q["route"] in ("wrap", "ep", "getonly", "plain"):
+                    seen.add(json.dumps([q, e["phase"], dev, auth if authset else None], sort_keys=True))
+    distinct = len(seen)
     after = sum(1 for e in reqs if e["phase"] == "after" and e["q"]["azk"] in ("bearer", "basic"))
     cells = sum(len(g["ops"]) for g in groups)
     samples = [{k: e[k] for k in ("q", "phase", "ob", "hdr")} for e in reqs
@@ -188,7 +206,9 @@ def run(ctx):
                 "through the api: bridge) judged by TLC against spec/ApiAuth.tla; requests come from the decision table "
                 "enumerated by TLC (spec/ApiAuthTable.tla, %s) and from histories of key-configuration / dev-mode / "
                 "authenticator / session operations drawn by TLC -simulate from spec/ApiAuthGen.tla (depth 30); "
-                "distinct = distinct (abstract request, expiry phase)" % ("complete table" if not quick else "covering subset"),
+                "non-trivial = carries a credential or an Origin, uses the bridge, or addresses a routed handler; "
+                "distinct = distinct (abstract request, expiry phase, dev mode, authenticator behaviour)" % (
+                    "complete table" if not quick else "covering subset"),
         "table_cells": cells, "table_groups": len(groups), "histories": len(sims), "scripts": len(scripts),
         "requests": len(reqs), "api_panic_probes": len(pans), "requests_after_key_expiry": after,
         "table_states": tr.distinct, "machine_states": mr.distinct,
